@@ -349,6 +349,12 @@ impl Lmdb {
         when: Time,
     ) -> Result<(), Error> {
         let key = Self::key_naddr_index(addr);
+        // Deletion requests can arrive in any order: never move the time backwards
+        if let Some(existing) = self.deleted_naddrs.get(txn, &key)? {
+            if existing >= when.as_u64() {
+                return Ok(());
+            }
+        }
         self.deleted_naddrs.put(txn, &key, &when.as_u64())?;
         Ok(())
     }
